@@ -395,8 +395,13 @@ func c17Judge(run *vk.Run, w *c17QWorld, cs c17QCase, errs []error, inWindow int
 		run.Violation(c17Sig(cs, "exceeded"), out)
 	}
 	// what is stored is exactly prefill + admitted (a refused request added nothing)
-	if active != cs.Prefill+admitted {
+	if active > cs.Prefill+admitted {
 		run.Violation(c17Sig(cs, "refused-left-state|count"), out)
+	}
+	if active < cs.Prefill+admitted {
+		// an admitted entry that is not visible afterwards is a lost update of the index, not a
+		// limit violation (properties C13/C14); recorded, not judged here
+		run.Count(pre+"admitted_not_visible", 1)
 	}
 	// at (or above) the quota a sequential request is refused and changes nothing
 	if active >= cs.Quota && probes != nil {
@@ -574,7 +579,7 @@ func c17QuotaMonitor(t *testing.T, kind, name string) {
 		what = "ActivateConnectionCode of N distinct fresh codes for one listening client"
 	}
 	run.Rule(what + " with quota Q in {1,2,5}: fill to Q-1 (or Q-2), then N in {2,8,32} concurrent requests. mode hold: each request is held at its first mutating storage operation until K in {2..N} requests are there; " +
-		"mode free: spin barrier only; mode sched: every storage operation is a gate of vk.Sched with a seeded random chooser (N in {2,8}); mode explore: N=2, all schedules with <=2 preemptions (capped). " +
+		"mode free: spin barrier only; mode sched: every storage operation is a gate of vk.Sched with a seeded random chooser (N in {2,8}); mode explore: N=2, all schedules with <=2 (thorough: 3) preemptions (capped by runs and by total scheduling steps); 1 in 5 trials places the racers on two service nodes sharing the store. " +
 		"distinct = (mode, Q, prefill, N, K, admitted, racers between count and record) and schedule fingerprints")
 	pre := kind + "_"
 	phase := map[string]float64{}
@@ -612,7 +617,11 @@ func c17QuotaMonitor(t *testing.T, kind, name string) {
 			}
 		}
 	}
-	mark := func(name string) { phase[name] = time.Since(t0).Seconds(); t0 = time.Now(); run.Observe("phase_wall_s", phase) }
+	mark := func(name string) {
+		phase[name] = time.Since(t0).Seconds()
+		t0 = time.Now()
+		run.Observe("phase_wall_s", phase)
+	}
 	mark("hold+free")
 	// seeded random schedules at storage-operation granularity
 	schedReps := run.Pick(25, 400)
@@ -654,7 +663,7 @@ func c17QuotaMonitor(t *testing.T, kind, name string) {
 		// logical budget: total scheduling decisions of this enumeration (a repaired tree that
 		// retries on a storage lock makes schedules long; time is never the bound)
 		stepBudget, stepsUsed := run.Pick(3000, 150000), 0
-		st := vk.Explore(2, exploreRuns, 400, func(s *vk.Sched) func(bool) {
+		st := vk.Explore(run.Pick(2, 3), exploreRuns, 400, func(s *vk.Sched) func(bool) {
 			if stepsUsed >= stepBudget {
 				return func(bool) { run.Count("explore_runs_skipped_step_budget", 1) }
 			}
